@@ -66,7 +66,7 @@ func init() {
 		"(*sync.WaitGroup).Wait":  modelNoop,
 		"strconv.Itoa":            modelUF("itoa"),
 		"strings.ToLower":         modelToLower,
-		"strings.HasPrefix":       modelUF("hasprefix"),
+		
 		"strings.HasSuffix":       modelUF("hassuffix"),
 		"strings.Contains":        modelUF("contains"),
 		"strings.TrimSpace":       modelUF("trimspace"),
@@ -90,8 +90,39 @@ func init() {
 	}
 }
 
+// strOrderAxioms: facts about Go's byte-wise string order and prefixes over
+// the uninterpreted string sort (each is provable in the solvers' native
+// string theory; see /verif/axioms).
+func (x *Run) strOrderAxioms() (string, string) {
+	lt := x.d.fun("strlt", []Sort{SStr, SStr}, SBool)
+	hp := x.d.fun("m.hasprefix.r0", []Sort{SStr, SStr}, SBool)
+	x.d.raw("ax.strlt.irrefl", fmt.Sprintf("(assert (forall ((a Str)) (! (not (%s a a)) :pattern ((%s a a)))))", lt, lt))
+	x.d.raw("ax.strlt.asym", fmt.Sprintf("(assert (forall ((a Str) (b Str)) (! (=> (%s a b) (not (%s b a))) :pattern ((%s a b)))))", lt, lt, lt))
+	x.d.raw("ax.strlt.trans", fmt.Sprintf("(assert (forall ((a Str) (b Str) (c Str)) (! (=> (and (%s a b) (%s b c)) (%s a c)) :pattern ((%s a b) (%s b c)))))", lt, lt, lt, lt, lt))
+	x.d.raw("ax.strlt.total", fmt.Sprintf("(assert (forall ((a Str) (b Str)) (! (or (= a b) (%s a b) (%s b a)) :pattern ((%s a b)))))", lt, lt, lt))
+	x.d.raw("ax.hp.refl", fmt.Sprintf("(assert (forall ((a Str)) (! (%s a a) :pattern ((%s a a)))))", hp, hp))
+	x.d.raw("ax.hp.len", fmt.Sprintf("(assert (forall ((s Str) (p Str)) (! (=> (%s s p) (<= (strlen p) (strlen s))) :pattern ((%s s p)))))", hp, hp))
+	x.d.raw("ax.hp.eqlen", fmt.Sprintf("(assert (forall ((s Str) (p Str)) (! (=> (and (%s s p) (= (strlen p) (strlen s))) (= s p)) :pattern ((%s s p)))))", hp, hp))
+	x.d.raw("ax.hp.comparable", fmt.Sprintf("(assert (forall ((s Str) (p Str) (q Str)) (! (=> (and (%s s p) (%s s q)) (or (%s p q) (%s q p))) :pattern ((%s s p) (%s s q)))))", hp, hp, hp, hp, hp, hp))
+	x.d.raw("ax.hp.proper.lt", fmt.Sprintf("(assert (forall ((s Str) (p Str)) (! (=> (and (%s s p) (not (= s p))) (%s p s)) :pattern ((%s s p)))))", hp, lt, hp))
+	x.d.raw("ax.hp.trans", fmt.Sprintf("(assert (forall ((s Str) (p Str) (q Str)) (! (=> (and (%s s p) (%s p q)) (%s s q)) :pattern ((%s s p) (%s p q)))))", hp, hp, hp, hp, hp))
+	return lt, hp
+}
+
+func (x *Run) modelStrCompare(st *State, a, b Val, rt types.Type) Val {
+	lt, _ := x.strOrderAxioms()
+	return Val{T: ite(app(lt, a.T, b.T), "(- 1)", ite(eq(a.T, b.T), "0", "1")), S: SInt, Ty: rt}
+}
+
 func (x *Run) model(fr *Frame, st *State, fn *ssa.Function, args []Val, site ssa.Instruction) ([]Outcome, bool) {
 	name := fn.String()
+	if (name == "strings.Compare" || name == "cmp.Compare[string]") && len(args) == 2 {
+		return single(st, x.modelStrCompare(st, args[0], args[1], fn.Signature.Results().At(0).Type())), true
+	}
+	if name == "strings.HasPrefix" {
+		_, hp := x.strOrderAxioms()
+		return single(st, Val{T: app(hp, args[0].T, args[1].T), S: SBool, Ty: types.Typ[types.Bool]}), true
+	}
 	if strings.HasPrefix(name, "slices.Equal[") && len(args) == 2 && args[0].S == args[1].S {
 		r := x.ufApply(st, "ext."+x.fnShort(fn), args, fn.Signature.Results())
 		st.assume(implies(eq(args[0].T, args[1].T), r.T))
